@@ -15,7 +15,7 @@ MODEL_TRUST = [
 SIMD_TRUST = ["semantics of the x86 intrinsics in HH/Intrin/X86.lean (Intel pseudo-code), validated against the real instructions through the SSE/AVX correspondence streams"]
 
 THEOREMS = {
-    "C01": dict(module="HH.Props.C01", trusted=MODEL_TRUST + ["HH/Spec.lean: hand transcription of the HighwayHash algorithm, validated in the kernel against the 195 published vectors + 5 README/test vectors"],
+    "C01": dict(module="HH.Props.EndToEnd", trusted=MODEL_TRUST + ["HH/Spec.lean: hand transcription of the HighwayHash algorithm, validated in the kernel against the 195 published vectors + 5 README/test vectors"],
                 theorems=[
         ("HH.C01.hash64_eq_spec", "∀ key data, P.hash64 key data = Spec.hash64 key data"),
         ("HH.C01.hash128_eq_spec", "∀ key data, P.hash128 key data = Spec.hash128 key data"),
@@ -25,6 +25,7 @@ THEOREMS = {
         ("HH.C01.spec_vectors256", "Spec.hash256 reproduces the 65 published 256-bit vectors"),
         ("HH.C01.spec_vectors_misc", "README vectors, two >=0x80 vectors, zero-key empty input"),
         ("HH.C01.portable_vectors64", "the portable model reproduces the published 64-bit vectors"),
+        ("HH.EndToEnd.machine_computes_spec", "∀ env, key, chunk list, width: the machine history new; appends; finalizeN on a HighwayHasher/PortableHash outputs the Spec digest of the concatenation"),
     ]),
     "C02": dict(module="HH.Props.C02", trusted=MODEL_TRUST + SIMD_TRUST, theorems=[
         ("HH.C02.backend_eq_portable", "∀ backend key chunks width: result of any back end built from a key = portable result"),
@@ -75,6 +76,7 @@ THEOREMS = {
         ("HH.C11.backend_independent", "∀ c, any two back ends: all later finalize/checkpoint/finish results equal"),
         ("HH.C11.restored_laws", "empty append is identity, streaming invariance, own checkpoints restore transparently"),
         ("HH.C11.decoded_count_lt", "pending count < 32 for every count field"),
+        ("HH.C11.restore_never_panics", "∀ c ∈ u8^164, checks on/off, every usize width >= 16 bits (incl. 32-bit): restore, later appends and finalize fire no panic point"),
         ("HH.C11.legacy_count32_breaks", "kernel-checked witness of the fixed defect (count=32)"),
     ]),
     "C14": dict(module="HH.Props.C14", trusted=MODEL_TRUST + SIMD_TRUST, theorems=[
